@@ -92,7 +92,7 @@ Fixpoint judge_steps (sc : scenario) (before : out) (steps : list step) (outs : 
       flat_map (fun x => let '(c, e, spec) := x in
                          if got_of c e before then (5, order_ok (merged_actions spec) o) :: judge_instance c e (merged_actions spec) before o ++ judge_blockers c e (merged_actions spec) before o else [])
                (s_cfg sc) ++ judge_steps sc o steps' outs'
-  | SOp _ :: steps', o :: outs' => (8, negb (x_panicked o)) :: judge_steps sc o steps' outs'
+  | SOp _ :: steps', o :: outs' => (8, negb (x_panicked o)) :: (12, ops_leave_others before o) :: judge_steps sc o steps' outs'
   | [], [] => []
   | _, _ => [(9, false)]
   end.
@@ -105,7 +105,8 @@ Definition ok (p : scenario * trace_t) : Z :=
   match p with
   | (sc, trace outs) =>
       let r := first_fail (judge_steps sc (mkOut [] [] [] [] [] [] [] true true false) (s_steps sc) outs) in
-      if negb (Z.eqb r 0) then r else if accumulate_ok sc outs then 0 else 6
+      if negb (Z.eqb r 0) then r else
+      if accumulate_ok sc outs && Z.eqb (first_fail (judge_missed (mod_sites sc) empty_out (s_steps sc) outs)) 0 then 0 else 6
   | (_, App.panic) => 10
   end.
 Definition bad_agree := bad agree_full.
